@@ -114,6 +114,7 @@ class GroupBuild:
         self.listing = []
         self.sources = {}
         self.unit_meta = {}
+        self.canaries = []
 
     def src(self, rel):
         if rel not in self.sources:
@@ -172,6 +173,10 @@ class GroupBuild:
                               subst=secs['subst'], resname=resname)
         kind = 'stub' if stub else 'fn'
         self.parts.append((kind, unit, '%s::%s' % (rel, name), new))
+        can = self.canary(new, name, stub, wrap_impl)
+        if can:
+            self.parts.append(('canary', unit, 'canary:%s:%s' % ('callee' if stub else 'pre', name), can))
+            self.canaries.append('canary:%s:%s' % ('callee' if stub else 'pre', name))
         self.listing.append('### %s %s (%s)%s\n%s\n%s\n' % (
             'callee contract (R5, body not verified here)' if stub else 'function under contract', name, rel,
             ' unit=' + unit if unit else '', '\n'.join('  - ' + l for l in log), X.listing(orig, new, name)))
@@ -185,6 +190,77 @@ class GroupBuild:
         if unit and not stub:
             self.unit_meta[unit] = dict(function=name, file=rel, clauses=cc, props=list(props), spec=spec)
         return cc
+
+    def canary(self, emitted, name, stub, wrap_impl):
+        """vacuity guard (DESIGN 2.4): a copy of the signature + requires whose body must FAIL to verify.
+        callee canary: `let r = callee(args); assert(false)` fails iff requires /\ ensures of the assumed contract is
+        satisfiable; unit canary: `assert(false)` at entry fails iff the unit's requires is satisfiable."""
+        text = emitted
+        inner = text
+        if wrap_impl:
+            a = text.index('{')
+            inner = text[a + 1:text.rindex('}')]
+        inner = inner.replace('#[verifier::external_body]\n', '')
+        try:
+            prefix, sig, body = X.split_sig(inner)
+        except X.LostAnchor:
+            return None
+        # cut ensures / decreases from the signature part (keep requires)
+        m = re.search(r'\n\s*ensures\b', sig)
+        sig_req = sig[:m.start()] + '\n' if m else sig
+        m2 = re.search(r'\bfn\s+' + re.escape(name) + r'\b', sig_req)
+        if not m2:
+            return None
+        cname = name + '__canary'
+        sig_c = sig_req[:m2.start()] + 'fn ' + cname + sig_req[m2.end():]
+        # parameter names
+        mask = X.code_mask(sig_req)
+        depth = 0
+        p = None
+        for k in range(m2.end(), len(sig_req)):
+            c = sig_req[k]
+            if c == '<':
+                depth += 1
+            elif c == '>' and sig_req[k - 1] != '-':
+                depth -= 1
+            elif c == '(' and depth == 0:
+                p = k
+                break
+        pc = X.match_close(sig_req, mask, p)
+        params = []
+        cur = ''
+        d = 0
+        for ch in sig_req[p + 1:pc]:
+            if ch in '([<{':
+                d += 1
+            elif ch in ')]>}':
+                d -= 1
+            if ch == ',' and d == 0:
+                params.append(cur)
+                cur = ''
+            else:
+                cur += ch
+        if cur.strip():
+            params.append(cur)
+        names = []
+        recv = None
+        for prm in params:
+            t = prm.strip()
+            if re.match(r'^(&\s*(\'\w+\s+)?(mut\s+)?)?self$', t) or t.startswith('mut self'):
+                recv = 'self'
+                continue
+            nm = t.split(':', 1)[0].strip()
+            nm = re.sub(r'^mut\s+', '', nm)
+            names.append(nm)
+        if stub:
+            call = ('self.%s(%s)' if recv else '%s(%s)') % (name, ', '.join(names))
+            cbody = '{ let r = %s; assert(false); r }\n' % call
+        else:
+            cbody = '{ assert(false); vstd::pervasive::unreached() }\n'
+        out = sig_c.rstrip() + '\n' + cbody
+        if wrap_impl:
+            out = wrap_impl + ' {\n' + out + '}\n'
+        return out
 
     def trait(self, name, rels_and_traits, spec, unit=None):
         """merge the methods of the listed traits into one trait `name` (R9); method contracts from spec"""
@@ -373,7 +449,7 @@ def classify(res, linemap):
                 if a <= line <= b:
                     unit, title, kind = u, t, k
         label = ''
-        for s in spans:
+        for s in sorted(spans, key=lambda s_: 0 if 'failed this' in (s_.get('label') or '') else 1):
             if s.get('label'):
                 txt = ' '.join(x['text'].strip() for x in s.get('text', []))
                 label += '%s: %s | ' % (s['label'], txt[:200])
